@@ -1,5 +1,7 @@
 import Chewing.Proofs.LearnBound
 import Chewing.Proofs.LearnLink
+import Chewing.Proofs.LearnLinkEditor
+import Chewing.Proofs.EditorLink
 /-!
 # C08 — Committed choices are learned, persist, and eventually become the default
 
@@ -16,12 +18,18 @@ Clauses of the statement and the theorems that carry them
   `records_strict_refuted` — the exception set is exactly: a non-break single character with a non-break
   single-character neighbour is recorded only inside the concatenated run.
 * "with a frequency not lower than before": `learn_monotone`, `commit_monotone` (and no panic on that path).
-* "from then on … offered as a candidate": `learned_is_candidate` (merged lookup lists it; that the candidate
-  window shows the merged lookup is C07); "also after close and reopen": `learned_persists`, under the explicit
-  hypothesis that reopening preserves the map (C10/C11) — covered on the real code by the harness.
+* "from then on … offered as a candidate": `learned_is_candidate` (merged lookup lists it) and, on the editor
+  model, `learned_is_candidate_linked` / `learned_in_open_list_linked` / `learned_is_candidate_typed_alone_linked`
+  (C07's `phrase_list_complete` + C09's `layered_over_map`: the list `PhraseSelector::candidates` shows on those
+  syllables contains the phrase; link hypothesis: the environment's lookup is `Layered` over a user layer denoting
+  the `UserMap`); "also after close and reopen": `learned_persists` (explicit hypothesis), `learned_persists_linked`
+  (discharged by C10/C09), `learned_is_candidate_after_reopen_linked` (… and still in the candidate list).
 * "repeating … a bounded number of times (≤ 64) makes X the default": `becomes_top` (50 learnings suffice for
   every pair of frequencies up to 1 000 000, by a monotone-gap induction, no pair enumeration),
-  `bound_within_64`, `top_is_default`, `becomes_default`.
+  `bound_within_64`, `top_is_default`, `becomes_default` (graph hypotheses), and without graph hypotheses on C03's
+  engine model: `top_is_default_linked`, `top_is_default_env_linked`, `becomes_default_linked`,
+  `becomes_default_layered_linked`
+  (`Proofs/LearnLinkEditor.lean`).
 * "with auto-learning disabled, committing never changes the user dictionary": `no_learn_when_disabled`.
 * the bare public function: `estimate_no_panic` (exact precondition; F07 witnesses as examples), `estimate_editor_path` /
   `estimate_rising_le_max` (F40 repaired: no panic and a result within `MAX_USER_FREQ` for every `u32` frequency),
@@ -215,7 +223,7 @@ theorem learn_records_multi (ctx : LearnCtx) (symbols : List Sym) (ivs : List In
 /-- a single character that is a break word is learned by itself (it only cuts the runs around it) — the
     pre-survey note "a break word is never learned" was wrong -/
 theorem break_word_is_unit (symbols : List Sym) (ivs : List Interval) (iv : Interval)
-    (hm : iv ∈ ivs) (hph : iv.isPhrase = true) (hb : isBreakWord iv.text = true) :
+    (hm : iv ∈ ivs) (hph : iv.isPhrase = true) (hb : Learn.isBreakWord iv.text = true) :
     (keyOf (segOf symbols iv), iv.text) ∈ learnUnits symbols ivs :=
   nonjoinable_phrase_unit symbols ivs iv hm hph (by simp [joinable, hb]) [] []
 
@@ -256,7 +264,7 @@ theorem no_learn_when_disabled (ctx : LearnCtx) (symbols : List Sym) (ivs : List
 
 /-- a live user entry is listed by the merged lookup of its syllables (`Layered::lookup_all_phrases`), which is
     what the candidate window of that range enumerates (`PhraseSelector::candidates`; completeness of the window
-    is C07) -/
+    is C07 — composed with this clause on the editor model by `learned_is_candidate_linked` below) -/
 theorem learned_is_candidate (ctx : LearnCtx) (u : UserMap) (key : List Nat) (x : Text) (h : Live u (key, x)) :
     ∃ f, (x, f) ∈ lookupAll ctx u key := by
   obtain ⟨v, hv, h1⟩ := h
@@ -381,9 +389,10 @@ example :
     mergedFreq sys [] [1, 2] [65, 66] ≤ othersMax sys [] [1, 2] [65, 66] ∧ othersMax sys [] [1, 2] [65, 66] ≤ freqBound
       ∧ (allEntries sys [] [1, 2]).isEmpty = false := by decide
 
-/-- **top_is_default** (partial: the hypotheses `hg`, `hedge`, `huniq`, `hrest` describe `find_intervals` /
-    `find_k_paths`, which belong to the conversion model of C03 and are not proved here; they are compared with
-    the real code by every `learn default` record of the harness).
+/-- **top_is_default** (over C08's own small graph model; the hypotheses `hg`, `hedge`, `huniq`, `hrest` describe
+    `find_intervals` / `find_k_paths` — `top_is_default_linked` at the end of this file proves the same conclusion on
+    C03's engine model WITHOUT them; they are also compared with the real code by every `learn default` record of
+    the harness).
 
     A phrase X whose merged frequency is strictly above every other phrase's of the whole range is what
     `find_best_phrase` attaches to the whole-range edge.  If node 0 of the interval graph has that edge
@@ -464,5 +473,265 @@ theorem learnRepeat_is_commits (sys : List Entry) (key : List Nat) (x : Text) (h
       (commitLearn false { sys := sys, lifetime := lt } (key.map Sym.syl)
         [{ start := 0, stop := key.length, isPhrase := true, text := x }] u).bind (learnRepeat sys key x rest) := by
   rw [commit_chosen _ key x u hx]; rfl
+
+/-! ## linked (round 2, linkF)
+
+The two clauses that were left to other properties' models — "the candidate window shows the merged lookup
+(C07)" and the graph-construction hypotheses of `top_is_default` (C03) — stated and proved on those models
+(`Model/Editor.lean`, `Model/Conversion.lean`); machinery in `Proofs/LearnLinkEditor.lean`. -/
+
+open LearnLinkEd in
+/-- **`learned_is_candidate` on the editor model.**  `u` is C08's user dictionary with `x` live under `key`
+    (what `learn_records` / `learn_ge_merged` establish after a commit).  Link hypotheses, explicit and minimal:
+    * `hu`, `hlk` — the user layer `us` (C09's concrete `TrieBuf`) answers the exact lookup of `key` as the map
+      `m` that `u` denotes (`LearnLink.URep`, the relation `learned_persists_linked` uses; `C09.lookup_exact`
+      provides `hlk` in every state satisfying `TrieBuf.Inv`);
+    * `henv` — for the dictionary state `d`, the environment's `lookupAll` of `key` IS `Layered::lookup_all_phrases`
+      over some system layers `sys` and that user layer;
+    * `hst`, `hr` — the phrase selector looks up exactly (`LookupStrategy::Standard`) and its highlighted range
+      holds the syllables `key` (`C07.RangeIs`; by `C07.range_is_syllables` every open phrase list of every
+      reachable editor state has such a `key`).
+    Then the list `PhraseSelector::candidates` returns contains `x`.  Proof: `C07.phrase_list_complete` (the
+    list is the dictionary's answer, in order) + `C09.layered_over_map` (a live user phrase is in `Layered`'s
+    answer). -/
+theorem learned_is_candidate_linked {D L : Type} (env : Env D L) {u : UserMap} {m : MapSpec.Map}
+    (hu : LearnLink.URep u m) (sys : List Dict) (us : TrieBuf.State) {key : List Nat}
+    (hlk : MapSpec.IsLookup m key (TrieBuf.lookupAll us key .standard))
+    {d : D} (henv : env.lookupAll d key .standard = Layered.lookupAll (sys ++ [TrieBuf.toDict us]) key .standard)
+    {p : PhraseSel} (hst : p.strategy = .standard) (hr : C07.RangeIs p key)
+    {l : L} {cs : List Text} (hc : PhraseSel.candidates env p d l = .ok cs)
+    {x : Text} (hlive : Live u (key, x)) : x ∈ cs :=
+  candidate_of_live env hu sys us hlk henv hst hr hc hlive
+
+open LearnLinkEd in
+/-- … for the list of an editor STATE: whenever an editor shows a phrase list (`Selecting::candidates`) whose
+    highlighted symbols are the syllables `key`, the learned phrase is in it -/
+theorem learned_in_open_list_linked {D L : Type} (env : Env D L) {u : UserMap} {m : MapSpec.Map}
+    (hu : LearnLink.URep u m) (sys : List Dict) (us : TrieBuf.State) {key : List Nat}
+    (hlk : MapSpec.IsLookup m key (TrieBuf.lookupAll us key .standard))
+    {e : Editor D L}
+    (henv : env.lookupAll e.shared.dict key .standard = Layered.lookupAll (sys ++ [TrieBuf.toDict us]) key .standard)
+    {s : Selecting} {p : PhraseSel} (hsel : s.sel = .phrase p)
+    (hst : p.strategy = .standard) (hr : C07.RangeIs p key)
+    {cs : List Text} (hc : Selecting.candidates env s e.shared = .ok cs)
+    {x : Text} (hlive : Live u (key, x)) : x ∈ cs := by
+  have hc' : PhraseSel.candidates env p e.shared.dict e.shared.syl = .ok cs := by
+    unfold Selecting.candidates at hc; rw [hsel] at hc; exact hc
+  exact candidate_of_live env hu sys us hlk henv hst hr hc' hlive
+
+open LearnLinkEd in
+/-- … and **"type the syllables alone, open the candidate list"**: the buffer holds exactly the syllables `key`,
+    cursor at the beginning, choosing forward, exact lookup.  Then `Selecting::open_phrase` of the editor model
+    DOES open a phrase list, over the whole buffer, and the learned phrase is one of its candidates.
+    (No hypothesis on the selector is left: its range is computed by `PhraseSelector::init`.) -/
+theorem learned_is_candidate_typed_alone_linked {D L : Type} (env : Env D L) {u : UserMap} {m : MapSpec.Map}
+    (hu : LearnLink.URep u m) (sys : List Dict) (us : TrieBuf.State) {key : List Nat} (hkey : key ≠ [])
+    (hlk : MapSpec.IsLookup m key (TrieBuf.lookupAll us key .standard))
+    {sh : Shared D L}
+    (henv : env.lookupAll sh.dict key .standard = Layered.lookupAll (sys ++ [TrieBuf.toDict us]) key .standard)
+    (hsym : sh.com.inner.symbols = key.map Sym.syl) (hcur : sh.com.cursor = 0)
+    (hfw : sh.options.phraseChoiceRearward = false) (hstd : sh.options.lookupStrategy = .standard)
+    {x : Text} (hlive : Live u (key, x)) :
+    ∃ sh' s p cs, openPhrase env sh = .ok (sh', .toState (.selecting s)) ∧ s.sel = .phrase p ∧
+      p.begin_ = 0 ∧ p.end_ = key.length ∧ C07.RangeIs p key ∧
+      Selecting.candidates env s sh' = .ok cs ∧ x ∈ cs := by
+  obtain ⟨ph, hph, e, _⟩ := layered_lists_live hu sys us key hlk hlive
+  have hin : ph ∈ env.lookupAll sh.dict key sh.options.lookupStrategy := by rw [hstd, henv]; exact hph
+  obtain ⟨sh', s, p, cs, h1, h2, _, _, h5, h6, h7, h8, h9⟩ :=
+    openPhrase_bare env hkey hsym hcur hfw (List.ne_nil_of_mem hin)
+  exact ⟨sh', s, p, cs, h1, h2, h5, h6, h7, h8, by rw [← e]; exact h9 ph hin⟩
+
+open LearnLinkEd in
+/-- **still a candidate after the dictionary was closed and reopened**: `learned_persists_linked` (C10's
+    durability under every schedule of the snapshot writer + C09) composed with C07.  Hypotheses of
+    `learned_persists_linked` verbatim, plus the link of the NEW session's environment: whatever complete file
+    `t` is at the path, the dictionary state `d` of the new session answers `key` as `Layered` over system
+    layers and a `TrieBuf` opened on `t` (`DictLink.freshSt t`).  Then every phrase list over the syllables
+    `key` contains the phrase learned in the OLD session. -/
+theorem learned_is_candidate_after_reopen_linked {D L : Type} (env : Env D L)
+    (t0 : List Leaf) (h0 : Trie.SnapOk t0) (tmp : Option DictLink.CFile)
+    (htmp : DictLink.TmpOk tmp) (acts : List DictLink.CAct)
+    (cw : DictLink.CWorld) (hrun : DictLink.crun (DictLink.cinit t0 tmp) acts = some cw)
+    (hcl : cw.phase = .closed)
+    (u : UserMap) (hu : LearnLink.URep u (MapSpec.Map.run (TrieBuf.baseGet t0) (DictLink.opsOf acts)))
+    (key : List Nat) (x : Text) (hlive : Live u (key, x)) (sys : List Dict)
+    {d : D} (henv : ∀ t, cw.fs .path = some (.complete t) →
+      env.lookupAll d key .standard = Layered.lookupAll (sys ++ [TrieBuf.toDict (DictLink.freshSt t)]) key .standard)
+    {p : PhraseSel} (hst : p.strategy = .standard) (hr : C07.RangeIs p key)
+    {l : L} {cs : List Text} (hc : PhraseSel.candidates env p d l = .ok cs) : x ∈ cs := by
+  obtain ⟨t, hpath, _, ph, hph, e, _⟩ := learned_persists_linked t0 h0 tmp htmp acts cw hrun hcl u hu key x hlive sys
+  exact listed_of_lookup env hr hc ⟨ph, by rw [hst, henv t hpath]; exact hph, e⟩
+
+/-- the link hypotheses are satisfiable, and the conclusion computed on an instance: an in-memory user layer
+    that received `add_phrase([1, 2], 甲乙, 1)`, one system layer with a homophone, the environment whose
+    `lookupAll` is `Layered` over them, a selector over the buffer `[1, 2]` -/
+example :
+    let us := TrieBuf.run TrieBuf.initMem [.add [1, 2] [30002, 20057] 1 none]
+    let sysd : Dict := Dict.ofEntries [([1, 2], ⟨[28204, 35430], 40, none⟩)]
+    let env : Env Unit Nat := { C07.f40Env with lookupAll := fun _ k st => Layered.lookupAll ([sysd] ++ [TrieBuf.toDict us]) k st }
+    let u : UserMap := UserMap.insert [] ([1, 2], [30002, 20057]) (1, 0)
+    let p : PhraseSel := { begin_ := 0, end_ := 2, forward := true, orig := 0, strategy := .standard,
+                           com := { symbols := [.syl 1, .syl 2], gaps := [.begin, .normal] } }
+    LearnLink.URep u (MapSpec.Map.empty.run [.add [1, 2] [30002, 20057] 1 none]) ∧
+      MapSpec.IsLookup (MapSpec.Map.empty.run [.add [1, 2] [30002, 20057] 1 none]) [1, 2] (TrieBuf.lookupAll us [1, 2] .standard) ∧
+      Live u ([1, 2], [30002, 20057]) ∧ C07.RangeIs p [1, 2] ∧
+      PhraseSel.candidates env p () 0 = .ok [[28204, 35430], [30002, 20057]] := by
+  refine ⟨?_, ?_, ⟨(1, 0), rfl, Nat.le_refl _⟩, rfl, rfl⟩
+  · have h0 : LearnLink.URep [] MapSpec.Map.empty := fun _ => rfl
+    exact LearnLink.urep_insert h0 ([1, 2], [30002, 20057]) (1, 0)
+  · have := C09.mem_answers [.add [1, 2] [30002, 20057] 1 none]
+    have h2 := this.2.1 [1, 2]
+    rw [this.1] at h2
+    exact h2
+
+/-! ### `top_is_default` without its graph hypotheses -/
+
+open LearnLinkEd in
+/-- **`top_is_default` on C03's engine model — `hg`, `hedge`, `huniq`, `hrest` discharged.**
+    `d` is the dictionary the engine reads; `hview`: its answer for `key` has the same (text, frequency) pairs as
+    C08's merged lookup (order-free; `SamePairs`).  `c` holds exactly the syllables `key` (`Bare`: no selection,
+    no `Break` gap inside; `bareComp key` is what typing them alone leaves).  `hdom` as in `top_is_default`.
+    Then for every pick oracle in range `ChewingEngine::convert` (C03's `convertChewing`, any lookup strategy)
+    returns exactly one alternative: the single interval showing `x`.  What was hypothesis is now proved from
+    C03's model: `find_intervals` has the whole-range edge with `find_best_phrase`'s pick = the dominant phrase
+    (`findBestPhrase_whole`, `whole_edge`), one edge per (start, end) (`edge_unique`), BFS returns that edge
+    (`shortestPath_direct`), it stays the first k-path (`kLoop_prefix`), every other k-path consists of graph
+    edges inside the range (`C03.find_intervals_valid`, `findKPaths_chain`) and is trimmed
+    (`trimPaths_direct`); a single path is never scored, so no `ScoreBound`. -/
+theorem top_is_default_linked {pick : Nat → List Conv.Path → Nat} (hpick : Conv.PickInRange pick)
+    (ctx : LearnCtx) (u : UserMap) (key : List Nat) (x : Text) (hkey : 0 < key.length)
+    (hdom : ∀ t, t ≠ x → mergedFreq ctx.sys u key t < mergedFreq ctx.sys u key x)
+    {d : Dict} {strat : Strategy} (hview : SamePairs (d.lookup key strat) (lookupAll ctx u key))
+    {c : Composition} (hb : Bare c key) :
+    Conv.convertChewing pick d strat c =
+      .ok [[{ start := 0, stop := key.length, isPhrase := true, text := x }]] :=
+  convertChewing_dominant hpick hb (List.length_pos_iff.mp hkey) (dominant_of_mergedFreq hdom hview)
+
+open LearnLinkEd in
+/-- … in particular for the engine `ConversionEngine::convert` of C03 (`Conv.convert … .chewing`) -/
+theorem top_is_default_engine_linked {pick : Nat → List Conv.Path → Nat} (hpick : Conv.PickInRange pick)
+    (ctx : LearnCtx) (u : UserMap) (key : List Nat) (x : Text) (hkey : 0 < key.length)
+    (hdom : ∀ t, t ≠ x → mergedFreq ctx.sys u key t < mergedFreq ctx.sys u key x)
+    {d : Dict} (hview : SamePairs (d.lookup key .standard) (lookupAll ctx u key)) :
+    Conv.convert pick .chewing d (bareComp key) =
+      .ok [[{ start := 0, stop := key.length, isPhrase := true, text := x }]] :=
+  top_is_default_linked hpick ctx u key x hkey hdom hview (bareComp_bare key)
+
+open LearnLinkEd in
+/-- … and when the dictionary is C09's `Layered` over any layers whose RAW answers for `key` (before the
+    max-merge) have the same pairs as C08's raw entries: the max-merge of `Layered::lookup_all_phrases` keeps the
+    dominance (`dominant_layered`, from `C09.layered_union`) -/
+theorem top_is_default_layered_linked {pick : Nat → List Conv.Path → Nat} (hpick : Conv.PickInRange pick)
+    (sys : List Entry) (u : UserMap) (key : List Nat) (x : Text) (hkey : 0 < key.length)
+    (hdom : ∀ t, t ≠ x → mergedFreq sys u key t < mergedFreq sys u key x)
+    {layers : List Dict} {strat : Strategy}
+    (hraw : SamePairs (Layered.candidates layers key strat) (allEntries sys u key))
+    {c : Composition} (hb : Bare c key) :
+    Conv.convertChewing pick { lookup := Layered.lookupAll layers } strat c =
+      .ok [[{ start := 0, stop := key.length, isPhrase := true, text := x }]] :=
+  convertChewing_dominant hpick hb (List.length_pos_iff.mp hkey) (dominant_layered_of_mergedFreq hdom hraw)
+
+open LearnLinkEd in
+/-- **`becomes_default` without graph hypotheses**: after `k ≥ 50` repetitions of "type the syllables, choose X,
+    commit" the conversion of the bare syllables by C03's engine model is exactly X — for every clock value,
+    every pick oracle in range, every strategy, every dictionary whose answer for the syllables has the pairs of
+    C08's merged lookup over the learned user dictionary `u'`, every buffer holding exactly those syllables -/
+theorem becomes_default_linked (sys : List Entry) (key : List Nat) (x : Text) (lts : List Nat) (u : UserMap)
+    (hlen : key.length = x.length) (hx : x ≠ [])
+    (hle : mergedFreq sys u key x ≤ othersMax sys u key x) (hne : (allEntries sys u key).isEmpty = false)
+    (hb : othersMax sys u key x ≤ freqBound) (hk : closeSteps + 1 ≤ lts.length) :
+    ∃ u', learnRepeat sys key x lts u = .ok u' ∧
+      ∀ (lt : Nat) (pick : Nat → List Conv.Path → Nat) (d : Dict) (strat : Strategy) (c : Composition),
+        Conv.PickInRange pick → SamePairs (d.lookup key strat) (lookupAll { sys := sys, lifetime := lt } u' key) →
+        Bare c key →
+        Conv.convertChewing pick d strat c =
+          .ok [[{ start := 0, stop := key.length, isPhrase := true, text := x }]] := by
+  obtain ⟨u', e1, e2⟩ := becomes_top sys key x lts u hlen hx hle hne hb hk
+  have hkey : 0 < key.length := by
+    cases x with
+    | nil => exact absurd rfl hx
+    | cons _ _ => rw [hlen]; exact Nat.succ_pos _
+  exact ⟨u', e1, fun lt pick d strat c hp hv hbare =>
+    top_is_default_linked hp { sys := sys, lifetime := lt } u' key x hkey e2 hv hbare⟩
+
+/-- the hypotheses of `top_is_default_linked` are satisfiable, and the engine evaluated on the instance of
+    `top_is_default`'s example: 測試 (freq 9) against 冊 / 是 with huge single-character frequencies — the split
+    out-scores 測試 and 測試 is still the only alternative -/
+example :
+    let sys : List Entry := [([1, 2], { text := [28204, 35430], freq := 9 }), ([1], { text := [20874], freq := 9999999 }),
+      ([2], { text := [26159], freq := 9999999 })]
+    let ctx : LearnCtx := { sys := sys, lifetime := 0 }
+    (∀ t, t ≠ [28204, 35430] → mergedFreq ctx.sys [] [1, 2] t < mergedFreq ctx.sys [] [1, 2] [28204, 35430]) ∧
+      LearnLinkEd.SamePairs ((Dict.ofEntries sys).lookup [1, 2] .standard) (lookupAll ctx [] [1, 2]) ∧
+      LearnLinkEd.Bare (LearnLinkEd.bareComp [1, 2]) [1, 2] ∧ Conv.PickInRange Conv.pickFirstMin ∧
+      Conv.convert Conv.pickFirstMin .chewing (Dict.ofEntries sys) (LearnLinkEd.bareComp [1, 2])
+        = .ok [[{ start := 0, stop := 2, isPhrase := true, text := [28204, 35430] }]] := by
+  refine ⟨?_, ⟨by decide, by decide⟩, LearnLinkEd.bareComp_bare _, C03.pickFirstMin_inRange, by decide⟩
+  intro t ht
+  have h1 : mergedFreq [([1, 2], { text := [28204, 35430], freq := 9 }), ([1], { text := [20874], freq := 9999999 }),
+      ([2], { text := [26159], freq := 9999999 })] [] [1, 2] [28204, 35430] = 9 := by decide
+  have h2 : mergedFreq [([1, 2], { text := [28204, 35430], freq := 9 }), ([1], { text := [20874], freq := 9999999 }),
+      ([2], { text := [26159], freq := 9999999 })] [] [1, 2] t = 0 := by
+    unfold mergedFreq
+    apply bestOf_eq_zero_of_absent
+    intro q hq
+    have : q = ([28204, 35430], 9) := by simpa [allEntries, sysLookup, UserMap.lookup] using hq
+    rw [this]; exact fun h => ht h.symm
+  show mergedFreq _ [] [1, 2] t < mergedFreq _ [] [1, 2] [28204, 35430]
+  rw [h1, h2]; decide
+
+open LearnLinkEd in
+/-- **the chain of the statement, end to end over C09's layers and C03's engine.**  System layers given by entry
+    lists `sysL` (`Dict.ofEntries`, exact-key lookup; C08's `ctx.sys` is their concatenation), a user dictionary `u`
+    without shadowed entries (`NoShadow`: true of the empty map, kept by learning — `noShadow_learnRepeat`) in which
+    X is not above its best homophone (≤ 1 000 000).  After `k ≥ 50` repetitions of "type the syllables, choose X,
+    commit": for EVERY user layer `us` (C09's `TrieBuf`) that answers the exact lookup of the syllables as the map
+    the learned `u'` denotes (`URep` + `IsLookup`, as in `learned_persists_linked`), `ChewingEngine::convert` reading
+    `Layered` over those layers converts the bare syllables to exactly X.  The pairs hypothesis of
+    `top_is_default_linked` is discharged here by `samePairs_layers` + `dominant_layered` (`C09.layered_union`). -/
+theorem becomes_default_layered_linked (sysL : List (List Entry)) (key : List Nat) (x : Text) (lts : List Nat) (u : UserMap)
+    (hns : NoShadow u) (hlen : key.length = x.length) (hx : x ≠ [])
+    (hle : mergedFreq sysL.flatten u key x ≤ othersMax sysL.flatten u key x)
+    (hne : (allEntries sysL.flatten u key).isEmpty = false)
+    (hb : othersMax sysL.flatten u key x ≤ freqBound) (hk : closeSteps + 1 ≤ lts.length) :
+    ∃ u', learnRepeat sysL.flatten key x lts u = .ok u' ∧
+      ∀ (pick : Nat → List Conv.Path → Nat) (m : MapSpec.Map) (us : TrieBuf.State) (c : Composition),
+        Conv.PickInRange pick → LearnLink.URep u' m →
+        MapSpec.IsLookup m key (TrieBuf.lookupAll us key .standard) → Bare c key →
+        Conv.convertChewing pick { lookup := Layered.lookupAll (sysL.map Dict.ofEntries ++ [TrieBuf.toDict us]) } .standard c =
+          .ok [[{ start := 0, stop := key.length, isPhrase := true, text := x }]] := by
+  obtain ⟨u', e1, e2⟩ := becomes_top sysL.flatten key x lts u hlen hx hle hne hb hk
+  have hkey : 0 < key.length := by
+    cases x with
+    | nil => exact absurd rfl hx
+    | cons _ _ => rw [hlen]; exact Nat.succ_pos _
+  have hns' : NoShadow u' := noShadow_learnRepeat lts hns e1
+  exact ⟨u', e1, fun pick m us c hp hu hlk hbare =>
+    top_is_default_layered_linked hp sysL.flatten u' key x hkey e2 (samePairs_layers sysL hu hns' us hlk) hbare⟩
+
+/-- `NoShadow` is satisfiable (the other hypotheses: examples of `becomes_top` and `learned_is_candidate_linked`) -/
+example : LearnLinkEd.NoShadow ([] : UserMap) ∧
+    LearnLinkEd.NoShadow (UserMap.insert [] ([1, 2], [30002, 20057]) (1, 0)) :=
+  ⟨LearnLinkEd.noShadow_nil, LearnLinkEd.noShadow_insert LearnLinkEd.noShadow_nil _ _⟩
+
+open LearnLinkEd in
+/-- … and in an editor environment whose engine component is C03's model (`Link.EngineIsC03`, the hypothesis under
+    which C03 discharges C01's `EnvOK.convert_ok`; `view d` = the dictionary state read as a lookup function): the
+    editor's `env.convert` of the bare syllables (at most 128, none with the empty spelling) is exactly X -/
+theorem top_is_default_env_linked {D L : Type} {env : Env D L} {G : D → Prop} {pick : Nat → List Conv.Path → Nat}
+    {view : D → Dict} (he : Link.EngineIsC03 env G pick view)
+    (ctx : LearnCtx) (u : UserMap) (key : List Nat) (x : Text) (hkey : 0 < key.length) (h128 : key.length ≤ 128)
+    (hsp : ∀ k ∈ key, spell k ≠ [])
+    (hdom : ∀ t, t ≠ x → mergedFreq ctx.sys u key t < mergedFreq ctx.sys u key x)
+    {d : D} (hview : SamePairs ((view d).lookup key .standard) (lookupAll ctx u key)) :
+    env.convert .chewing d (bareComp key) = .ok [[{ start := 0, stop := key.length, isPhrase := true, text := x }]] := by
+  have hs : Conv.SpellNonempty (bareComp key) := by
+    intro k hk
+    have : Sym.syl k ∈ key.map Sym.syl := hk
+    obtain ⟨k', hk', e⟩ := List.mem_map.mp this
+    cases e
+    exact hsp k hk'
+  rw [he.engine .chewing d (bareComp key) (by simpa [bareComp] using h128) hs]
+  exact top_is_default_engine_linked he.pick_ok ctx u key x hkey hdom hview
 
 end Chewing.C08
